@@ -51,6 +51,7 @@ type VConn struct {
 	deadlineSet bool
 	written     [][]byte // units written successfully, in order
 	closes      int
+	failWrites  bool  // every Write fails (the peer has gone by the time the connection is used)
 	closeErr    error // what Close reports after having closed the connection (tls: "failed to send closeNotify alert (but connection was closed anyway)")
 }
 
@@ -98,6 +99,10 @@ func (v *VConn) Pending() []*gate {
 
 func (v *VConn) Write(b []byte) (int, error) {
 	v.mu.Lock()
+	if v.failWrites {
+		v.mu.Unlock()
+		return 0, errVReset
+	}
 	if v.auto {
 		v.written = append(v.written, append([]byte(nil), b...))
 		v.mu.Unlock()
